@@ -1527,6 +1527,311 @@ def seekable_any_cfgs(rng, count):
     return out
 
 
+
+# =========================================================================== seekable inputs LONGER than a big CONTENT_LENGTH
+# copy_body reads the raw seekable file directly (no LimitedLengthFile), in steps of min(todo, 65535): the LAST step must ask
+# for the remainder only.  Declared lengths around and beyond the copy step, streams with bytes after the body.
+SEEKBIG_CLS = [65534, 65535, 65536, 65537, 70000, 131069, 131070, 131071, 140000, 196606]
+SEEKBIG_EXTRA = [1, 7, 65535, 70000]
+SEEKBIG_LIMITS = [0, 10240, 10 ** 6]
+SEEKBIG_PATHS = ["copy", "copy_body", "make_body_seekable+copy", "body=;content_length=;copy", "copy-of-copy"]
+
+
+def seekbig_cfgs(rng, count):
+    out = []
+    combos = [(c, e, lim, p) for c in SEEKBIG_CLS for e in SEEKBIG_EXTRA for lim in SEEKBIG_LIMITS for p in SEEKBIG_PATHS]
+    # a fixed core that every run visits (each declared length with a short and a long tail, both branches of the temp-file test)
+    core = [(c, e, lim, p) for c in SEEKBIG_CLS for (e, lim, p) in ((7, 10240, "copy"), (70000, 10 ** 6, "copy"),
+                                                                    (70000, 10240, "copy_body"), (7, 10 ** 6, "copy_body"))]
+    core += [(70000, 35000, 10240, "body=;content_length=;copy"), (70000, 35000, 10 ** 6, "body=;content_length=;copy"),
+             (70000, 9, 10240, "make_body_seekable+copy"), (131071, 9, 10 ** 6, "copy-of-copy")]
+    picks = core + [rng.choice(combos) for _ in range(max(0, count - len(core)))]
+    for c, e, lim, p in picks[:max(count, len(core))]:
+        out.append({"data_len": c + e, "cl": c, "limit": lim, "path": p})
+    return out
+
+
+def oracle_seekable_big(case):
+    """None or (key, message).  The property itself: the copy (resp. the request after copy_body) holds exactly the first
+    CONTENT_LENGTH bytes, its CONTENT_LENGTH is unchanged, the original is unchanged, nothing beyond CONTENT_LENGTH is read."""
+    import webob.request as wr
+    c, n, path = case["cl"], case["data_len"], case["path"]
+    data = pattern(n)
+    want = data[:c]
+    cfg = {"data": data, "cl": str(c), "seekable": True, "term": None, "legacy": False, "limit": case["limit"]}
+    what = "%s on a seekable %d-byte input with CONTENT_LENGTH=%d, request_body_tempfile_limit=%d" % (path, n, c, case["limit"])
+    try:
+        if path == "body=;content_length=;copy":
+            cls = req_class(case["limit"])
+            r = cls.blank("/", method="PUT")
+            r.body = data
+            r.content_length = c
+            raw = None
+        else:
+            r, raw = make_request(cfg)
+        if path == "make_body_seekable+copy":
+            r.make_body_seekable()
+        if path == "copy_body":
+            r.copy_body()
+            tgt = r
+        elif path == "copy-of-copy":
+            tgt = r.copy().copy()
+        else:
+            tgt = r.copy()
+        if raw is not None and raw.hwm > c:
+            return ("overread:seekable-input:copy_body", "%s read up to offset %d" % (what, raw.hwm))
+        if tgt.content_length != c:
+            return ("copy:content-length-changed:seekable-input", "%s: CONTENT_LENGTH of the result is %r" % (what, tgt.content_length))
+        got = tgt.body
+        if got != want:
+            return ("copy:wrong-bytes:seekable-input", "%s: body of the result has %d bytes (%s), expected the first %d" % (
+                what, len(got), "a prefix-extension" if got[:c] == want else "different bytes", c))
+        if tgt.content_length != c or tgt.body != want:
+            return ("copy:not-repeatable:seekable-input", "%s: second .body / CONTENT_LENGTH differ" % what)
+        if tgt is not r and (r.content_length != c or r.body != want):
+            return ("copy:original-changed:seekable-input", "%s: the original now has CONTENT_LENGTH=%r, %d body bytes" % (
+                what, r.content_length, len(r.body)))
+    except wr.DisconnectionError:
+        return ("copy:spurious-disconnect:seekable-input", "%s raised DisconnectionError" % what)
+    return None
+
+
+def corr_seekbig_cases():
+    """the same class against the model (run_obs with the source's chunk = 65535; cb_loop reads min(todo, chunk) per
+    iteration): seekable `pattern n` inputs longer than a declared length beyond the copy step"""
+    cases = []
+    for c, e, lim in ((65536, 7, 10240), (70000, 70000, 10240), (70000, 9, 10 ** 6), (131071, 65535, 0), (131069, 1, 10 ** 6)):
+        cfg = {"data": pattern(c + e), "cl": str(c), "seekable": True, "term": None, "legacy": False, "limit": lim}
+        hist = [(0, "copy", None), (1, "body", None), (0, "body", None)]
+        obs, advs = run_impl(cfg, hist)
+        cases.append((coq_case(cfg, hist, advs), obs, {"cfg": jcfg(cfg), "hist": jhist(hist), "pattern": True, "seekbig": True}))
+    return cases
+
+
+
+# =========================================================================== the CONTENT_LENGTH text layer
+IMPORTS_TEXT = ["Webob.Model.C10_BodyStream", "Webob.Model.C10_ContentLength"]
+BIG = 10 ** 30
+INT_WS = " \t\n\v\f\r\x85\xa0"          # what int() strips from a latin-1 str (not \x1c-\x1f)
+IN_TYPE_TEXT = "(bytes * option str * bool * option bool * bool * Z * list step)"
+FN_TEXT = ("(fun c => match c with (s, t, sk, tm, lg, lim, hist) => run_obs_text %d s t sk tm lg lim hist end)" % CHUNK)
+FN_PARSE = "parse_obs"
+
+
+def bigfix(v):
+    """integers beyond 10^30 travel as big-endian octets (mirrors Lib/C12_PyInt.vint)"""
+    if isinstance(v, bool) or not isinstance(v, int):
+        return v
+    if abs(v) < BIG:
+        return v
+    a = abs(v)
+    return ["big", v < 0, a.to_bytes((a.bit_length() + 7) // 8, "big")]
+
+
+def ctext(t):
+    return copt(None if t is None else cstr(t))
+
+
+def latin1(t):
+    return t is None or all(ord(c) < 256 for c in t)
+
+
+CL_BOUNDARY = ["0", "00", "+5", " 5 ", "5_0", "-1", "", "-0", "+0", "5", "05", "005", " 5", "5 ", "\t5\n", "\x0b5\x0c\r",
+               "\xa05\x85", "1_0_0", "+1_0", "-1_0", " +0_6 ", "-5", "-100", " -3 "]
+CL_MALFORMED = [" ", "+", "-", "_", "5_", "_5", "5__0", "+-5", "-+5", "++5", "--1", "- 5", "+ 5", "5 5", "5-", "5+", "5.0", "5.",
+                ".5", "1e2", "0x10", "0b1", "0o7", "12a", "a12", "abc", "None", "1,000", "5;", "5\x00", "\x005", "\x1c5", "5\x1f",
+                "\x1d", "\xb2", "\xbd", "\xb9", "5\xb2", "-_5", "+_5", "0_", "_", "5_ ", " _5", "5 ", "inf", "nan", "1L", "0xA",
+                "5 _0", "५", "٥", "５", "٥٠", " ٥ "]
+CL_LONG = ["0" * 4299 + "5", "0" * 4300 + "5", "0" * 4299 + "7" + " ", " " * 60 + "7", "0_" * 4299 + "9", "0_" * 4300 + "9",
+           "+" + "0" * 4299 + "4", "-" + "0" * 4299 + "4", "-" + "0" * 4300 + "4", "0" * 9000]
+CL_HUGE = ["1" * 4300, "1" * 4301, "9" * 5000, "-" + "1" * 4300, "1" + "_1" * 4299, "1" + "_1" * 4300, "1" * 31, "-" + "9" * 40]
+
+
+def lenient(rng, n):
+    """a text int() reads as n, using every leniency: zeros, sign, underscores, whitespace padding"""
+    d = str(abs(n))
+    if rng.random() < 0.4:
+        d = "0" * rng.choice([1, 1, 2, 7]) + d
+    if len(d) > 1 and rng.random() < 0.35:
+        k = rng.randrange(1, len(d))
+        d = d[:k] + "_" + d[k:]
+    sign = "-" if n < 0 else rng.choice(["", "", "+"])
+    pad = lambda: "".join(rng.choice(INT_WS) for _ in range(rng.choice([0, 0, 1, 1, 2, 3])))
+    return pad() + sign + d + pad()
+
+
+def damaged(rng, t):
+    """one edit away from t: a character inserted, doubled, dropped or replaced"""
+    junk = "_+-. ex\x1c\xb2,\x00a٥"
+    k = rng.randrange(len(t) + 1)
+    u = rng.random()
+    if u < 0.5 or not t:
+        return t[:k] + rng.choice(junk) + t[k:]
+    k = min(k, len(t) - 1)
+    if u < 0.65:
+        return t[:k] + t[k] + t[k:]
+    if u < 0.8:
+        return t[:k] + t[k + 1:]
+    return t[:k] + rng.choice(junk) + t[k + 1:]
+
+
+def rand_cl_text(rng, n):
+    """a CONTENT_LENGTH text for a stream of n bytes: valid, lenient-valid, non-positive, malformed"""
+    v = rng.choice([n, n, n, max(0, n - 1), max(0, n - rng.choice([1, 2, 3, max(1, n // 2)])), n + 1, n + rng.choice([2, 10, 9000]),
+                    0, 1, 5, rng.randrange(0, 60)])
+    u = rng.random()
+    if u < 0.22:
+        return str(v)
+    if u < 0.50:
+        return lenient(rng, v)
+    if u < 0.58:
+        return lenient(rng, -rng.choice([0, 1, 2, 5, 100, max(1, n)]))
+    if u < 0.76:
+        return damaged(rng, rng.choice([str(v), lenient(rng, v)]))
+    if u < 0.86:
+        return rng.choice(CL_MALFORMED)
+    if u < 0.94:
+        return rng.choice(CL_BOUNDARY)
+    if u < 0.97:
+        return rng.choice(CL_LONG)
+    return "".join(rng.choice("0123456789 +-_\t.\xa0") for _ in range(rng.randrange(0, 6)))
+
+
+def parse_cases(rng, count):
+    """real descriptors.parse_int_safe / parse_int on texts (None = key absent) vs the model's parse_obs"""
+    from webob.descriptors import parse_int_safe, parse_int
+    texts = [None] + CL_BOUNDARY + CL_MALFORMED + CL_LONG + CL_HUGE
+    texts += [str(k) for k in (0, 1, 9, 10, 99, 100, 65535, 65536, 2 ** 31, 2 ** 63, 10 ** 29, 10 ** 30, 10 ** 31)]
+    while len(texts) < count:
+        texts.append(rand_cl_text(rng, rng.choice([0, 1, 5, 13, 40, 70000])))
+    cases = []
+    for t in texts:
+        if not latin1(t):
+            continue          # outside the model's domain (the oracle keeps them)
+        out = [bigfix(parse_int_safe(t)), bigfix(fw.catch(parse_int, t))]
+        cases.append((ctext(t), out, {"text": t}))
+    return cases
+
+
+def text_body_oracle(t):
+    """the property oracle on a request whose CONTENT_LENGTH is the text t: every whole-body path, with and without the
+    terminated flag, over a stream with bytes beyond any small announced length"""
+    for term in (None, True):
+        for hist in ([(0, "body", None), (0, "body", None)], [(0, "fread", None)], [(0, "fread", 3), (0, "fread", None)],
+                     [(0, "copy", None), (1, "body", None)], [(0, "post", None)], [(0, "sread", None)]):
+            cfg = {"data": b"a=1&bc=23XYZ", "cl": t, "seekable": False, "term": term, "legacy": False, "limit": 4}
+            res = oracle_history(cfg, hist)
+            if res and not res[0].startswith("partial-body_file-read-then-whole-body"):
+                return res, cfg, hist
+    return None
+
+
+def text_corr_cases(rng, count, depth):
+    """real BaseRequest over an environ with a generated CONTENT_LENGTH text: content_length, is_body_readable and the
+    step-by-step observations of a history, vs run_obs_text (= parse_int_safe model composed with the body model)"""
+    import webob.request as wr
+    cases = []
+    fixed = [t for t in CL_BOUNDARY + CL_MALFORMED + CL_LONG if latin1(t)]
+    while len(cases) < count:
+        cfg = rand_cfg(rng, 40, seekable=False)
+        n = len(cfg["data"])
+        cfg["cl"] = fixed[len(cases)] if len(cases) < len(fixed) else rand_cl_text(rng, n)
+        c = parse_cl(cfg["cl"])
+        if not latin1(cfg["cl"]) or (c is not None and abs(c) > 80000):
+            continue
+        if rng.random() < 0.15:
+            cfg["cls"] = "base"
+        if c is not None and 0 < c <= 60 and rng.random() < 0.2:
+            cfg["seekable"] = True                      # a seekable input holds exactly the declared bytes
+            cfg["data"] = rand_bytes(rng, c)
+        hist = [(0, "body", None)] if rng.random() < 0.25 else rand_hist(rng, cfg, rng.randrange(1, depth + 1))
+        r, _ = make_request(cfg)
+        head = [bigfix(r.content_length), bool(r.is_body_readable)]
+        obs, advs = run_impl(cfg, hist)
+        steps = clist("(%s, %s, %s)" % (cnat(i), cop(o, a), clist(cnat(x) for x in adv)) for (i, o, a), adv in zip(hist, advs))
+        lit = "(%s, %s, %s, %s, %s, %s, %s)" % (
+            cbytes(cfg["data"]), ctext(cfg["cl"]), cbool(cfg["seekable"]),
+            copt(None if cfg["term"] is None else cbool(bool(cfg["term"]))), cbool(bool(cfg["legacy"])), cZ(cfg["limit"]), steps)
+        cases.append((lit, head + [obs], {"cfg": jcfg(cfg), "hist": jhist(hist)}))
+    return cases
+
+
+def check_text_source(ctx):
+    """fail closed: the text model mirrors this exact shape of descriptors.parse_int / parse_int_safe and of the
+    content_length descriptor; if the source no longer has it, say so rather than guess"""
+    import ast
+    import inspect
+    import webob.descriptors as wd
+    import webob.request as wr
+    want = {
+        "parse_int": "def parse_int(value):\n    if value is None or value == '':\n        return None\n    return int(value)",
+        "parse_int_safe": "def parse_int_safe(value):\n    if value is None or value == '':\n        return None\n    try:\n"
+                          "        return int(value)\n    except ValueError:\n        return None",
+    }
+    for name, text in want.items():
+        try:
+            got = ast.unparse(ast.parse(inspect.getsource(getattr(wd, name))))
+        except Exception as e:  # noqa
+            got = "<%s>" % type(e).__name__
+        if got != ast.unparse(ast.parse(text)):
+            ctx.broken.append("webob.descriptors.%s no longer has the shape modelled in coq/Model/C10_ContentLength.v: %s"
+                              % (name, got[:300]))
+    src = inspect.getsource(wr.BaseRequest)
+    import re
+    m = re.search(r"content_length\s*=\s*converter\(\s*environ_getter\(\s*\"CONTENT_LENGTH\"\s*,\s*None\s*,[^)]*\)\s*,\s*"
+                  r"parse_int_safe\s*,\s*serialize_int\s*,", src)
+    if not m:
+        ctx.broken.append("BaseRequest.content_length is no longer converter(environ_getter('CONTENT_LENGTH', None), "
+                          "parse_int_safe, serialize_int): the text model of coq/Model/C10_ContentLength.v does not apply")
+
+
+def run_text_layer(ctx):
+    check_text_source(ctx)
+    # ---- correspondence 1: the parse functions themselves
+    cases = parse_cases(ctx.sub_rng("corr-parse"), ctx.scale(700, 4000))
+    bad = ctx.corr("parse_int_safe-texts", IMPORTS_TEXT, FN_PARSE, cases, in_type="option str", shard=150)
+    for i in bad[:6]:
+        t = cases[i][2]["text"]
+        hit = text_body_oracle(t)
+        if hit:
+            report(ctx, hit[0], hit[1], hit[2], "corr-parse")
+        else:
+            ctx.broken.append("correspondence parse_int_safe-texts: model and implementation disagree on %r: %r"
+                              % (t if t is None else t[:80], jsonable_short(cases[i][1])))
+    # ---- correspondence 2: content_length / is_body_readable / body and the other paths over the TEXT
+    cases = text_corr_cases(ctx.sub_rng("corr-text"), ctx.scale(600, 4000), ctx.scale(5, 9))
+    bad = ctx.corr("content-length-texts", IMPORTS_TEXT, FN_TEXT, cases, in_type=IN_TYPE_TEXT, shard=150)
+    for i in bad[:6]:
+        cfg, hist = unj(cases[i][2])
+        res = oracle_history(cfg, hist)
+        if res:
+            report(ctx, res, cfg, hist, "corr-text")
+        else:
+            ctx.broken.append("correspondence content-length-texts: model and implementation disagree on %s"
+                              % json.dumps(cases[i][2])[:1500])
+    # ---- oracle: the reference machine (which parses with Python's int(), independently of webob) on many more texts,
+    # also beyond latin-1 and with huge values
+    rt = ctx.sub_rng("oracle-text")
+    m = ctx.scale(6000, 60000)
+    fixed = CL_BOUNDARY + CL_MALFORMED + CL_LONG + CL_HUGE
+    nontrivial = 0
+    for k in range(m):
+        cfg = rand_cfg(rt, 50, seekable=False)
+        cfg["cl"] = fixed[k] if k < len(fixed) else rand_cl_text(rt, len(cfg["data"]))
+        if rt.random() < 0.5:
+            cfg["data"] = form_bytes(rt, len(cfg["data"]))
+        hist = rand_xhist(rt, cfg, rt.randrange(1, 7))
+        nontrivial += cfg["cl"] != str(parse_cl(cfg["cl"]))
+        res = oracle_history(cfg, hist)
+        if res:
+            report(ctx, res, cfg, hist, "content-length-texts")
+    ctx.oracle_count("content-length-texts", m, nontrivial)
+
+
+def jsonable_short(v):
+    return [x if not isinstance(x, list) else "big" for x in v] if isinstance(v, list) else v
+
+
 # =========================================================================== the check
 # what coq/Model/C10_BodyStream.v mirrors by hand (its comments name the same functions)
 MODELLED = [
@@ -1545,10 +1850,12 @@ MODELLED = [
     "webob.request:LimitedLengthFile.__init__",        # mkW [] clen inp
     "webob.request:LimitedLengthFile.readinto",        # llf_readinto
     "webob.request:DisconnectionError",                # res.Disc
+    # the TEXT layer (coq/Model/C10_ContentLength.v; int() itself is C12's py_int, Lib/C12_PyInt.v)
+    "webob.descriptors:parse_int",                     # parse_int
+    "webob.descriptors:parse_int_safe",                # parse_int_safe / content_length / readable_text
 ]
 # exercised on the real code by the oracle / correspondence but not mirrored in Gallina
 ORACLE_ONLY = [
-    "webob.descriptors:parse_int_safe",                # content_length: the model takes the parsed value (decimal texts only)
     "webob.descriptors:environ_getter",                # is_body_seekable / body_file_raw: plain environ fields in the model
     "webob.request:BaseRequest.body_file.fset",        # wsgi.input replaced through the setter
     "webob.request:BaseRequest._text__set",
@@ -1615,7 +1922,8 @@ def run(ctx):
                                             knobs=True), 250),
               ("configurations-not-a-form", corr_cases(ctx, ctx.sub_rng("corr-noform"), ctx.scale(300, 1500), 48,
                                                        ctx.scale(9, 14), knobs=True, form=False), 250),
-              ("buffer-and-chunk-boundaries", corr_big_cases(ctx.sub_rng("corr-big"), ctx.scale(20, 48)), 1)]
+              ("buffer-and-chunk-boundaries", corr_big_cases(ctx.sub_rng("corr-big"), ctx.scale(20, 48)), 1),
+              ("seekable-longer-than-big-content-length", corr_seekbig_cases(), 1)]
     r2l = ctx.sub_rng("corr-two")
     two = []
     for _ in range(ctx.scale(500, 3000)):
@@ -1637,6 +1945,9 @@ def run(ctx):
             else:
                 ctx.broken.append("correspondence %s: model and implementation disagree on %s" % (
                     name, json.dumps(cases[i][2])[:1500]))
+
+    # ---- the CONTENT_LENGTH text layer: parse_int_safe model, composed with the body model
+    run_text_layer(ctx)
 
     # ---- oracle 1: every history to a fixed depth over the access paths, on the original and its first copy
     U = exhaustive_universe()
@@ -1693,6 +2004,16 @@ def run(ctx):
         if res:
             ctx.fail(res[0], res[1], {"kind": "seekable-any", "cfg": jcfg(cfg)}, True, "seekable-any")
     ctx.oracle_count("seekable-any", m, m)
+
+    # ---- oracle 4b: seekable inputs LONGER than a declared length around / beyond the 65535 copy step: copy(), copy_body(),
+    #      make_body_seekable, body= + content_length=, small and large temp-file limits
+    r4b = ctx.sub_rng("oracle-seekable-big")
+    sb = seekbig_cfgs(r4b, ctx.scale(70, 600))
+    for case in sb:
+        res = oracle_seekable_big(case)
+        if res:
+            ctx.fail(res[0], res[1], dict(case, kind="seekable-big"), True, "seekable-big")
+    ctx.oracle_count("seekable-big", len(sb), len(sb))
 
     # ---- oracle 5: ONE environ served through several Request objects (long-lived and brand-new wrappers), with the
     #      environ's flags flipped, wsgi.input replaced and the class-level temp-file limit changed mid-history
@@ -1813,8 +2134,10 @@ def run(ctx):
         "partial-body_file-read-then-whole-body:* (witness theorems C10_partial_read_then_body*_refuted)",
         "call_application: the application is modelled as reading only a seekable (rewound) body; on a non-seekable "
         "input webob passes the environ through untouched",
-        "CONTENT_LENGTH: the model takes the parsed value; the harness parses like descriptors.parse_int_safe (int() with "
-        "its leniency, anything else = absent) and the generators include int-typed, padded, signed and non-numeric texts",
+        "CONTENT_LENGTH: the body model takes the parsed value; coq/Model/C10_ContentLength.v models descriptors.parse_int / "
+        "parse_int_safe on the TEXT (int() = C12's py_int) for texts with code points < 256 and the C10_text_* theorems start "
+        "from the text; texts beyond latin-1 (non-ASCII decimal digits, which int() accepts) and int-typed values are "
+        "exercised by the oracle only, whose reference machine parses with Python's int()",
         "webob.is_body_seekable is switched off mid-history only on a held body whose file is at position 0 (otherwise "
         "the private flag lies about the file); it is never switched on for a stream without seek()",
     ]
@@ -1852,6 +2175,8 @@ def replay(ctx, path):
             res = oracle_history(cfg, hist)
             if res:
                 break
+    elif kind == "seekable-big":
+        res = oracle_seekable_big(case)
     elif kind == "seekable-any":
         cfg = dict(case["cfg"])
         cfg["data"] = bytes.fromhex(cfg["data"])
